@@ -10,7 +10,7 @@ REPO=${VERIF_REPO:-/repo}
 mkdir -p "$OUT/gen"
 [ -d "$V/third_party/memberlist" ] || "$V/bin/mkthird.sh" >&2
 cd "$V/sim"
-cp "$REPO/go.sum" go.sum
+cmp -s "$REPO/go.sum" go.sum || { cp "$REPO/go.sum" go.sum.$$ && mv go.sum.$$ go.sum; }
 go run ./cmd/genoverlay -repo "$REPO" -out "$OUT/gen"
 MODFLAG=()
 if [ "$REPO" != /repo ]; then
